@@ -37,6 +37,7 @@ type ccall struct {
 	inv, res int64
 	ret      int
 	evs      []agentEv
+	parent   *ccall // the call whose handler made this call (nil: made by the goroutine itself)
 }
 
 type gstate struct {
@@ -112,6 +113,9 @@ func (s *scenario) randomOp(r *rng, allowClose bool) []int {
 
 func (s *scenario) doCall(g *gstate, op []int) {
 	c := &ccall{tid: g.tid, depth: len(g.stack), op: op}
+	if len(g.stack) > 0 {
+		c.parent = g.stack[len(g.stack)-1]
+	}
 	g.stack = append(g.stack, c)
 	c.inv = s.clock.Add(1)
 	var err error
@@ -338,6 +342,9 @@ func findLinearization(calls []*ccall) ([]int, bool) {
 			if done[i] || c.inv > minRes {
 				continue
 			}
+			if c.parent != nil && !done[c.parent.idx] {
+				continue // a handler runs only after the critical section of its call
+			}
 			ns := st.clone()
 			ret, evs := ns.apply(c.op)
 			if ret != c.ret || !sameEvs(evs, c.evs) {
@@ -361,7 +368,11 @@ func findLinearization(calls []*ccall) ([]int, bool) {
 
 // one call on a case line: inv, res, |op|, op..., then the observation: ret, number of events, events
 func callField(c *ccall) string {
-	f := append([]int{int(c.inv), int(c.res), len(c.op)}, c.op...)
+	par := 0
+	if c.parent != nil {
+		par = c.parent.idx + 1
+	}
+	f := append([]int{int(c.inv), int(c.res), par, len(c.op)}, c.op...)
 	f = append(f, c.ret, len(c.evs))
 	for _, e := range c.evs {
 		f = append(f, e.h, e.id, e.kind, e.err)
@@ -370,7 +381,7 @@ func callField(c *ccall) string {
 }
 
 func obsOf(calls []*ccall, order []int) []int {
-	obs := []int{1, 1}
+	obs := []int{1, 1, 1}
 	for _, i := range order {
 		c := calls[i]
 		obs = append(obs, c.ret, len(c.evs))
@@ -389,13 +400,13 @@ func execLinCheck(o *out, f [][]int) []int {
 	if len(f) < 1 {
 		return []int{9}
 	}
-	obs := []int{1, 1}
+	obs := []int{1, 1, 1}
 	for _, i := range f[0] {
-		if i+1 >= len(f) || len(f[i+1]) < 3 {
+		if i+1 >= len(f) || len(f[i+1]) < 4 {
 			return []int{9}
 		}
 		c := f[i+1]
-		obs = append(obs, c[3+c[2]:]...)
+		obs = append(obs, c[4+c[3]:]...)
 	}
 	return obs
 }
